@@ -72,9 +72,12 @@ def R(pat, rep, count='+'):
 AT_REF = R(r'(?<![>\w.])(pt|low|high)\.at\(', r'COORD_AT(\1, ')
 AT_NODE = R(r'\b(\w+)->pt\.at\(', r'COORD_AT(&\1->pt, ')
 DIMS_CALL = R(r'\bCoordType::dimensions\(\)', 'COORD_DIMS()')
-DQ_DECL = R(r'\bdeque<Node\*> (\w+);', r'vdeque \1; vdeque_init(&\1);', count=1)
-DQ_GET = R(r'((?:\w+->)?\w+)\.(front|pop_front|empty)\(\)', r'vdeque_\2(&\1)')
-DQ_PUT = R(r'((?:\w+->)?\w+)\.emplace_back\(', r'vdeque_emplace_back(&\1, ')
+# a local work list of node pointers, std::deque<Node*> or std::vector<Node*>, default- or fill-constructed (type-directed:
+# the same sequence stub serves both; front/pop_front and back/pop_back are both modelled)
+DQ_DECL = R(r'\b(?:deque|vector)<Node\*> (\w+)(?:\(([^;()]*)\))?;',
+            lambda mo: 'vdeque %s; vdeque_init(&%s);' % (mo.group(1), mo.group(1)) + (' vdeque_fill(&%s, %s);' % (mo.group(1), mo.group(2)) if mo.group(2) else ''), count=1)
+DQ_GET = R(r'((?:\w+->)?\w+)\.(front|pop_front|back|pop_back|empty|size)\(\)', r'vdeque_\2(&\1)')
+DQ_PUT = R(r'((?:\w+->)?\w+)\.(?:emplace_back|push_back)\(', r'vdeque_emplace_back(&\1, ')
 DQ = [DQ_DECL, DQ_GET, DQ_PUT]
 PT_EQ = R(r'\bn->pt == pt\b', 'COORD_EQ(&n->pt, pt)', count=1)
 DELETE = R(r'\bdelete n;', 'node_delete(n);', count=1)
